@@ -142,7 +142,7 @@ func loadEnvInternal(env map[string]string, prefix string, prv reflect.Value) er
 			mapKeyLower := strings.ToLower(mapKey)
 			nv := prv.Elem().MapIndex(reflect.ValueOf(mapKeyLower))
 			zero := reflect.Value{}
-			if nv == zero {
+			if nv == zero || nv.IsNil() {
 				nv = reflect.New(rt.Elem().Elem())
 				prv.Elem().SetMapIndex(reflect.ValueOf(mapKeyLower), nv)
 			}
